@@ -34,8 +34,9 @@ func (nopOutputter) Output(int, []byte, erpc.LoggerLevel) {}
 func (nopOutputter) Flush() error                         { return nil }
 
 var (
-	initOnce sync.Once
-	curEnv   *Env
+	initOnce    sync.Once
+	curEnv      *Env
+	printDetail bool // peers of the current run render message bodies in the run log
 )
 
 func processInit() {
@@ -160,8 +161,15 @@ func Run(t *testing.T, opt Options, scenario func(e *Env)) *Outcome {
 	}
 	lvl := opt.LogLevel
 	if lvl == "" {
+		// one run in six executes teleport's run-log code (formatting only: the output is discarded), half of
+		// them with message bodies rendered (PeerConfig.PrintDetail); drawn from the seed without touching
+		// the scenario's random stream
 		lvl = "OFF"
+		if simrt.Mix(opt.Seed, 77)%6 == 0 {
+			lvl = "TRACE"
+		}
 	}
+	printDetail = lvl != "OFF" && simrt.Mix(opt.Seed, 78)%2 == 0
 	erpc.SetLoggerLevel(lvl)
 	switch opt.Mapper {
 	case "rpc":
@@ -220,6 +228,9 @@ func (e *Env) NewPeer(name string, cfg erpc.PeerConfig, plugins ...erpc.Plugin) 
 	}
 	if cfg.DefaultBodyCodec == "" {
 		cfg.DefaultBodyCodec = "json" // importing thriftproto switches the process default to thrift
+	}
+	if printDetail {
+		cfg.PrintDetail = true
 	}
 	p := erpc.NewPeer(cfg, plugins...)
 	e.peers = append(e.peers, p)
